@@ -327,14 +327,22 @@ impl CelValue {
         if let CelValue::Int(l) = lhs {
             match rhs {
                 CelValue::Int(_) => (lhs, rhs),
-                CelValue::UInt(u) => (lhs, (u as i64).into()),
+                // widening must not change the value: a uint above the int
+                // range stays a uint and the operators handle the mixed pair
+                CelValue::UInt(u) => match i64::try_from(u) {
+                    Ok(i) => (lhs, i.into()),
+                    Err(_) => (lhs, rhs),
+                },
                 CelValue::Float(_) => ((l as f64).into(), rhs),
                 CelValue::Bool(b) => (lhs, (b as i64).into()),
                 _ => (lhs, rhs),
             }
         } else if let CelValue::UInt(l) = lhs {
             match rhs {
-                CelValue::Int(_) => ((l as i64).into(), rhs),
+                CelValue::Int(_) => match i64::try_from(l) {
+                    Ok(i) => (i.into(), rhs),
+                    Err(_) => (lhs, rhs),
+                },
                 CelValue::UInt(_) => (lhs, rhs),
                 CelValue::Float(_) => ((l as f64).into(), rhs),
                 CelValue::Bool(b) => (lhs, (b as u64).into()),
@@ -380,6 +388,9 @@ impl CelValue {
         match (lhs, rhs) {
             (CelValue::Int(l), CelValue::Int(r)) => Ok(l.partial_cmp(&r)),
             (CelValue::UInt(l), CelValue::UInt(r)) => Ok(l.partial_cmp(&r)),
+            // only reached for a uint above the int range (see type_prop)
+            (CelValue::Int(l), CelValue::UInt(r)) => Ok((l as i128).partial_cmp(&(r as i128))),
+            (CelValue::UInt(l), CelValue::Int(r)) => Ok((l as i128).partial_cmp(&(r as i128))),
             (CelValue::Float(l), CelValue::Float(r)) => Ok(l.partial_cmp(&r)),
             (CelValue::Bool(l), CelValue::Bool(r)) => Ok(l.partial_cmp(&r)),
             (CelValue::String(l), CelValue::String(r)) => Ok(l.partial_cmp(&r)),
@@ -560,6 +571,21 @@ impl CelValue {
         }
     }
 
+    /// Operands of an int/uint pair that `type_prop` could not widen (the
+    /// uint is above the int range), as exact 128 bit integers.
+    fn mixed_int_operands(lhs: &CelValue, rhs: &CelValue) -> Option<(i128, i128)> {
+        match (lhs, rhs) {
+            (CelValue::Int(l), CelValue::UInt(r)) => Some((*l as i128, *r as i128)),
+            (CelValue::UInt(l), CelValue::Int(r)) => Some((*l as i128, *r as i128)),
+            _ => None,
+        }
+    }
+
+    /// int with uint gives int: the exact result or an overflow error.
+    fn mixed_int_result(val: Option<i128>, op: &str) -> CelValue {
+        CelValue::checked_or_overflow(val.and_then(|v| i64::try_from(v).ok()), op)
+    }
+
     pub fn index(self, ival: CelValue) -> CelValue {
         self.error_prop_or(ival, |obj, index| match obj {
             CelValue::List(list) => {
@@ -721,6 +747,13 @@ impl CelValueDyn for CelValue {
                 match (lhs, rhs) {
                     (CelValue::Int(l), CelValue::Int(r)) => CelValue::from_bool(l == r),
                     (CelValue::UInt(l), CelValue::UInt(r)) => CelValue::from_bool(l == r),
+                    // only reached for a uint above the int range (see type_prop)
+                    (CelValue::Int(l), CelValue::UInt(r)) => {
+                        CelValue::from_bool(l as i128 == r as i128)
+                    }
+                    (CelValue::UInt(l), CelValue::Int(r)) => {
+                        CelValue::from_bool(l as i128 == r as i128)
+                    }
                     (CelValue::Float(l), CelValue::Float(r)) => CelValue::from_bool(l == r),
                     (CelValue::Bool(l), CelValue::Bool(r)) => CelValue::from_bool(l == r),
                     (CelValue::String(l), CelValue::String(r)) => CelValue::from_bool(l == r),
@@ -1250,6 +1283,10 @@ impl Add for CelValue {
                 (lhs_val, rhs_val)
             };
 
+            if let Some((l, r)) = CelValue::mixed_int_operands(&lhs, &rhs) {
+                return CelValue::mixed_int_result(l.checked_add(r), "+");
+            }
+
             match lhs {
                 CelValue::Int(val1) => {
                     if let CelValue::Int(val2) = rhs {
@@ -1322,6 +1359,10 @@ impl Sub for CelValue {
                 (lhs_val, rhs_val)
             };
 
+            if let Some((l, r)) = CelValue::mixed_int_operands(&lhs, &rhs) {
+                return CelValue::mixed_int_result(l.checked_sub(r), "-");
+            }
+
             match lhs {
                 CelValue::Int(val1) => {
                     if let CelValue::Int(val2) = rhs {
@@ -1373,6 +1414,10 @@ impl Mul for CelValue {
                 (lhs_val, rhs_val)
             };
 
+            if let Some((l, r)) = CelValue::mixed_int_operands(&lhs, &rhs) {
+                return CelValue::mixed_int_result(l.checked_mul(r), "*");
+            }
+
             match lhs {
                 CelValue::Int(val1) => {
                     if let CelValue::Int(val2) = rhs {
@@ -1413,6 +1458,13 @@ impl Div for CelValue {
             } else {
                 (lhs_val, rhs_val)
             };
+
+            if let Some((l, r)) = CelValue::mixed_int_operands(&lhs, &rhs) {
+                if r == 0 {
+                    return CelValue::from_err(CelError::DivideByZero);
+                }
+                return CelValue::mixed_int_result(l.checked_div(r), "/");
+            }
 
             match lhs {
                 CelValue::Int(val1) => {
@@ -1463,6 +1515,13 @@ impl Rem for CelValue {
             } else {
                 (lhs_val, rhs_val)
             };
+
+            if let Some((l, r)) = CelValue::mixed_int_operands(&lhs, &rhs) {
+                if r == 0 {
+                    return CelValue::from_err(CelError::DivideByZero);
+                }
+                return CelValue::mixed_int_result(l.checked_rem(r), "%");
+            }
 
             match lhs {
                 CelValue::Int(val1) => {
